@@ -7,9 +7,9 @@ META = {
         "note": "Trusted: gosym, z3, the effect-log disk model (each effect durable on return). Bounds: STEPS<=3 quick / 4 thorough, one local and one remote writer.",
     },
     "C16": {
-        "text": "Bounded model checking of the state-before-event clause on the real write and replication paths: emissions are intercepted synchronously and the real log/index/cache are queried at that instant, over every bounded history. Clauses about the real eventbus and the legacy emitter's goroutine interleavings are outside (stated).",
+        "text": "Bounded model checking of the state-before-event clause on the real write and replication paths: emissions are intercepted synchronously and the real log/index/cache are queried at that instant, over every bounded history. The legacy channel emitter's two buffering goroutines are executed under every thread schedule within the preemption bound and the received sequence is compared with the emitted one. The real eventbus is outside (stated).",
         "design_ref": "DESIGN.md §2 C16",
-        "note": "Partial claim: clause (a) only. Bounds as C05.",
+        "note": "Clause (a) and clause (c) (legacy emitter: N=18 events, every schedule with <= 2 preemptions; stalled subscriber with 200 events). Clause (b), the real libp2p eventbus, is outside. Bounds as stated.",
     },
     "C01": {
         "text": "Bounded model checking of the whole replication pipeline on the real code: two writer stores and a fresh replica run the real AddOperation, Sync, replicator, ipfs-log fetcher, Join and index code inside the interpreter; the history shape is enumerated, keys/values are symbolic, and the solver shows that all replicas holding the same entries list them in the same order and expose the same view, equal to the replay of the log.",
